@@ -444,9 +444,10 @@ theorem NetTree.population_lans (S : NetTree) (x : Nat × Station) (h : x ∈ S.
 theorem Routers.population_lans (rs : Routers) (x : Nat × Station) (h : x ∈ rs.population) : x.1 ∈ rs.lans := by
   match rs with
   | .nil => simp [Routers.population] at h
-  | .cons ua um la c ds rest =>
+  | .cons ua um la c bf ds rest =>
     simp only [Routers.population, List.mem_append] at h
-    rcases h with h | h
+    rcases h with (h | h) | h
+    · simp [Routers.lans, Downs.population_lans bf x h]
     · simp [Routers.lans, Downs.population_lans ds x h]
     · simp [Routers.lans, Routers.population_lans rest x h]
 theorem Downs.population_lans (ds : Downs) (x : Nat × Station) (h : x ∈ ds.population) : x.1 ∈ ds.lans := by
@@ -517,10 +518,11 @@ theorem tree_global_broadcast_reaches_all (T : NetTree) (o : Station) (er : Bool
           └ net 3 {station 08 (address only)} -/
 def demoTree : NetTree :=
   .mk 1 [⟨[1], true, true, []⟩, ⟨[2], false, false, []⟩]
-    (.cons 0 [0x0a] 1 []
+    (.cons 0 [0x0a] 1 [] .nil
       (.cons 1 [0x0b]
           (.mk 2 [⟨[5], true, true, []⟩]
-            (.cons 0 [0x0d] 0 [] (.cons 1 [0x0e] (.mk 4 [⟨[6], true, true, []⟩, ⟨[7], false, true, []⟩] .nil) .nil) .nil))
+            (.cons 0 [0x0d] 0 [] .nil
+              (.cons 1 [0x0e] (.mk 4 [⟨[6], true, true, []⟩, ⟨[7], false, true, []⟩] .nil) .nil) .nil))
         (.cons 2 [0x0c] (.mk 3 [⟨[8], false, true, []⟩] .nil) .nil))
       .nil)
 
@@ -585,8 +587,8 @@ theorem tree_local_unicast_once (T : NetTree) (o : Station) (m : Mac) (er : Bool
   `T.warm d` (Lemmas/RouteUnicast.lean) says, for every router on the path from the root to
   network `d`: either `d` is directly connected, or the cache search the code performs over the
   router's other adapters finds the port towards `d` and there the next router of the path.
-  The originator's own cache names the first router (`hoc`).  Routers list the adapter facing
-  the root first (the harness exercises every order; the per-hop theorems do not depend on it). -/
+  The originator's own cache names the first router (`hoc`).  A router's root-facing adapter may
+  sit anywhere in its adapter list (`before ++ [up] ++ downs`). -/
 
 /-- **tree_remote_broadcast_once** — a remote broadcast for network `d` (anywhere else in the
     tree), caches on the path consistent with the tree: delivered to every station of `d`,
@@ -665,25 +667,32 @@ theorem reply_routable (T T' : NetTree) (o t : Station) (m1 m1' : Mac)
 /-- `demoTree` with warm caches on the path 1 → 2 → 4 -/
 def demoWarm : NetTree :=
   .mk 1 [⟨[1], true, true, [((some 1, 4), [0x0a])]⟩, ⟨[2], false, false, []⟩]
-    (.cons 0 [0x0a] 1 [((some 2, 4), [0x0d])]
+    (.cons 0 [0x0a] 1 [((some 2, 4), [0x0d]), ((some 2, 1), [0xee])] .nil
       (.cons 1 [0x0b]
           (.mk 2 [⟨[5], true, true, []⟩]
-            (.cons 0 [0x0d] 0 [] (.cons 1 [0x0e] (.mk 4 [⟨[6], true, true, [((some 4, 1), [0x0e])]⟩, ⟨[7], false, true, []⟩] .nil) .nil) .nil))
+            (.cons 0 [0x0d] 0 [((some 2, 1), [0x0b])] .nil
+              (.cons 1 [0x0e] (.mk 4 [⟨[6], true, true, [((some 4, 1), [0x0e])]⟩, ⟨[7], false, true, []⟩] .nil) .nil)
+              .nil))
         (.cons 2 [0x0c] (.mk 3 [⟨[8], false, true, []⟩] .nil) .nil))
       .nil)
 
-/-- the same internetwork read from network 4 -/
+/-- the same internetwork read from network 4: the SAME nodes (same adapter lists, same
+    caches) — router R2's up port is now its second adapter, R1's its second of three -/
 def demoWarm' : NetTree :=
   .mk 4 [⟨[6], true, true, [((some 4, 1), [0x0e])]⟩, ⟨[7], false, true, []⟩]
     (.cons 1 [0x0e] 0 [((some 2, 1), [0x0b])]
       (.cons 0 [0x0d]
           (.mk 2 [⟨[5], true, true, []⟩]
-            (.cons 1 [0x0b] 1 [((some 2, 4), [0x0d])]
-              (.cons 0 [0x0a] (.mk 1 [⟨[1], true, true, [((some 1, 4), [0x0a])]⟩, ⟨[2], false, false, []⟩] .nil)
-                (.cons 2 [0x0c] (.mk 3 [⟨[8], false, true, []⟩] .nil) .nil))
+            (.cons 1 [0x0b] 1 [((some 2, 4), [0x0d]), ((some 2, 1), [0xee])]
+              (.cons 0 [0x0a] (.mk 1 [⟨[1], true, true, [((some 1, 4), [0x0a])]⟩, ⟨[2], false, false, []⟩] .nil) .nil)
+              (.cons 2 [0x0c] (.mk 3 [⟨[8], false, true, []⟩] .nil) .nil)
               .nil))
         .nil)
+      .nil
       .nil)
+
+/-- … literally the same set of nodes -/
+example : demoWarm'.nodes.isPerm demoWarm.nodes = true := by decide
 
 def demoO : Station := ⟨[1], true, true, [((some 1, 4), [0x0a])]⟩
 def demoT : Station := ⟨[6], true, true, [((some 4, 1), [0x0e])]⟩
